@@ -228,7 +228,7 @@ function thrower($a) { throw new Exception("boom-" . $a); }
 $server = new Server('127.0.0.1', 0);
 `)
 	if w.OnError {
-		b.WriteString("$server->onError(function ($request, $response, $error) {\n  $response->status(500)->write(\"E:\" . $request->header(\"X-T\") . \":\" . $error);\n});\n")
+		b.WriteString("$server->onError(function ($request, $response, $error) {\n  __err($request->header(\"X-Id\"), $error);\n  $response->status(500)->write(\"E:\" . $request->header(\"X-T\") . \":\" . $error);\n});\n")
 	}
 	for i := 0; i < w.MW; i++ {
 		fmt.Fprintf(&b, "$server->middleware(function ($request, $response, $next) {\n  $t = $request->header(\"X-T\");\n  $response->header(\"X-MW%d\", $t);\n  __gate();\n  $next($request, $response);\n  $request->attribute(\"after%d\", $t);\n}, %d);\n", i, i, i)
@@ -300,6 +300,7 @@ func request(w *W, i int) *http.Request {
 }
 
 type obs struct {
+	Err    string // what the error handler was told (logged by the script through __err), if anything
 	Status int
 	Hdr    string
 	Body   string
@@ -308,7 +309,7 @@ type obs struct {
 }
 
 func (o obs) String() string {
-	return fmt.Sprintf("status=%d commits=%v hdr=%s body=%q panic=%q", o.Status, o.Codes, o.Hdr, o.Body, o.Panic)
+	return fmt.Sprintf("status=%d commits=%v hdr=%s body=%q panic=%q err=%q", o.Status, o.Codes, o.Hdr, o.Body, o.Panic, o.Err)
 }
 
 func observe(c *hx.SimConn, p any) obs {
@@ -341,8 +342,15 @@ func firstLine(s string) string {
 }
 
 // boot creates a fresh interpreter, runs the server script and returns its mux.
-func boot(w *W, src string) (*hx.Env, *http.ServeMux, string) {
+func boot(w *W, src string, errs []string) (*hx.Env, *http.ServeMux, string) {
 	env := hx.NewEnv()
+	env.VM.AddFunc(&hx.GoFunc{Name: "__err", Params: []string{"id", "msg"}, Fn: func(ctx data.Context, a []data.Value) (data.GetValue, data.Control) {
+		id := atoi(hx.ValStr(a[0]))
+		if id >= 0 && id < len(errs) {
+			errs[id] = ptrRe.ReplaceAllString(firstLine(hx.ValStr(a[1])), "0x…")
+		}
+		return data.NewNullValue(), nil
+	}})
 	env.VM.AddFunc(&hx.GoFunc{Name: "__fail", Params: []string{"id", "k"}, Fn: func(ctx data.Context, a []data.Value) (data.GetValue, data.Control) {
 		id := atoi(hx.ValStr(a[0]))
 		if id >= 0 && id < len(w.Reqs) && w.Reqs[id].AbortAt == atoi(hx.ValStr(a[1])) {
@@ -382,7 +390,8 @@ func exec(t *testing.T, x any, s hx.Sched) *hx.Outcome {
 	src := script(w)
 	// solo oracle: a second fresh interpreter serves the same requests strictly one at a time
 	verifsim.SetMapConfig(&verifsim.MapConfig{Mode: verifsim.MapSorted})
-	soloEnv, soloMux, err := boot(w, src)
+	soloErrs := make([]string, len(w.Reqs))
+	soloEnv, soloMux, err := boot(w, src, soloErrs)
 	if err != "" {
 		verifsim.SetMapConfig(nil)
 		o.Violate("C11/harness-setup", "server script failed: "+err)
@@ -393,9 +402,11 @@ func exec(t *testing.T, x any, s hx.Sched) *hx.Outcome {
 	solo2 := make([]obs, len(w.Reqs))
 	for i := range w.Reqs {
 		solo[i] = serveOne(w, soloMux, i)
+		solo[i].Err = soloErrs[i]
 	}
 	for i := len(w.Reqs) - 1; i >= 0; i-- {
 		solo2[i] = serveOne(w, soloMux, i)
+		solo2[i].Err = soloErrs[i]
 	}
 	restore()
 	verifsim.SetMapConfig(nil)
@@ -408,11 +419,12 @@ func exec(t *testing.T, x any, s hx.Sched) *hx.Outcome {
 		}
 	}
 	conc := make([]obs, len(w.Reqs))
+	concErrs := make([]string, len(w.Reqs))
 	var setupErr string
 	var env *hx.Env
 	res := hx.RunBubble(t, s.Config(0), func(sim *verifsim.Sim) {
 		var mux *http.ServeMux
-		env, mux, setupErr = boot(w, src)
+		env, mux, setupErr = boot(w, src, concErrs)
 		if setupErr != "" {
 			return
 		}
@@ -432,6 +444,7 @@ func exec(t *testing.T, x any, s hx.Sched) *hx.Outcome {
 	}
 	var hs []string
 	for i := range conc {
+		conc[i].Err = concErrs[i]
 		hs = append(hs, conc[i].String())
 	}
 	o.Hash = verifsim.Mix(hx.HashResult(res), hx.HashStrings(hs...))
@@ -467,17 +480,21 @@ func exec(t *testing.T, x any, s hx.Sched) *hx.Outcome {
 		}
 		// classify the difference
 		detail := fmt.Sprintf("request %d (%s %s) served among %d in-flight requests: %s; alone: %s", i, w.Handlers[w.Reqs[i].H].Method, request(w, i).RequestURI, len(w.Reqs), a, b)
+		// why the request failed (if it did): what the error handler was told, else the panic that left the handler
+		fa, fb := a.Err, b.Err
+		if fa == "" {
+			fa = a.Panic
+		}
+		if fb == "" {
+			fb = b.Panic
+		}
 		switch {
-		case a.Panic != b.Panic:
-			msg := a.Panic
+		case fa != fb:
+			msg := fa
 			if msg == "" {
-				msg = "solo-only: " + b.Panic
+				msg = "solo-only: " + fb
 			}
 			o.Violate("C11/failed-only-when-concurrent/"+normMsg(msg), detail)
-		case strings.HasPrefix(a.Body, "E:") && !strings.HasPrefix(b.Body, "E:"):
-			// the error handler answered, but only in the concurrent run
-			parts := strings.SplitN(a.Body, ":", 3)
-			o.Violate("C11/failed-only-when-concurrent/"+normMsg(parts[len(parts)-1]), detail)
 		case a.Body != b.Body:
 			for _, k := range diffSegments(a.Body, b.Body) {
 				o.Violate("C11/segment/"+k, detail)
